@@ -1,6 +1,6 @@
-(* C30, dump part: DumpRegistry gives different repositories different directory names;
-   files of a dump do not collide when the repository directories are plain names;
-   witnesses for the collisions when they are not (authority "..", "rsync"). *)
+(* C30, dump part: DumpRegistry gives different repositories different directory names, all of them
+   plain names other than "rsync"; files of a dump do not collide when the repository directories are
+   plain names; what happened before the names "rsync", "", "." and ".." were reserved. *)
 From Coq Require Import List NArith Bool Lia String Arith PeanoNat.
 From RV Require Import Base.PathModel Base.Sha256 C30.Model C30.Spec C30.Proofs.
 Import ListNotations.
@@ -28,10 +28,12 @@ Qed.
 (* every registered name is in the set of used names; a name belongs to one repository *)
 Definition reg_ok (r : registry) : Prop :=
   (forall k d, In (k, d) (rrdp_uris r) -> In d (rrdp_dirs r)) /\
-  (forall k1 k2 d, In (k1, d) (rrdp_uris r) -> In (k2, d) (rrdp_uris r) -> k1 = k2).
+  (forall k1 k2 d, In (k1, d) (rrdp_uris r) -> In (k2, d) (rrdp_uris r) -> k1 = k2) /\
+  (forall x, In x reserved -> In x (rrdp_dirs r)) /\
+  (forall k d, In (k, d) (rrdp_uris r) -> ~ In d reserved).
 
-Lemma reg_empty_ok : reg_ok reg_empty.
-Proof. split; intros; contradiction. Qed.
+Lemma reg_init_ok : reg_ok reg_init.
+Proof. repeat split; cbn [reg_init rrdp_uris rrdp_dirs]; intros; try contradiction; assumption. Qed.
 
 Lemma reg_lookup_in : forall k l d, reg_lookup k l = Some d -> In (k, d) l.
 Proof.
@@ -44,7 +46,7 @@ Qed.
 Lemma make_path_ok : forall r n d r', reg_ok r -> make_path r n = Some (d, r') ->
   reg_ok r' /\ In (hkey n, d) (rrdp_uris r') /\ incl (rrdp_uris r) (rrdp_uris r').
 Proof.
-  intros r n d r' [O1 O2] H. unfold make_path in H.
+  intros r n d r' [O1 [O2 [O3 O4]]] H. unfold make_path in H.
   assert (Hfresh : forall x, (if dir_mem (lower (h_auth n)) (rrdp_dirs r)
                               then first_free (S (List.length (rrdp_dirs r))) (lower (h_auth n)) 1 (rrdp_dirs r)
                               else Some (lower (h_auth n))) = Some x -> ~ In x (rrdp_dirs r)).
@@ -60,6 +62,8 @@ Proof.
     + inversion E1; subst. exfalso. apply Hfresh. eapply O1; exact H2.
     + inversion E2; subst. exfalso. apply Hfresh. eapply O1; exact H1.
     + eapply O2; eassumption.
+  - intros x Hx. right. apply O3; exact Hx.
+  - intros k d' [E|Hin] Hr; [inversion E; subst; apply Hfresh, O3, Hr | exact (O4 k d' Hin Hr)].
   - left; reflexivity.
   - intros x Hx. right; exact Hx.
 Qed.
@@ -117,14 +121,82 @@ Qed.
 (* different RRDP repositories never get the same directory name *)
 Theorem registry_distinct : forall calls i j ni nj d,
   nth_error calls i = Some (Some ni) -> nth_error calls j = Some (Some nj) ->
-  nth_error (name_run reg_empty calls) i = Some (Some d) ->
-  nth_error (name_run reg_empty calls) j = Some (Some d) ->
+  nth_error (name_run reg_init calls) i = Some (Some d) ->
+  nth_error (name_run reg_init calls) j = Some (Some d) ->
   hkey ni = hkey nj.
 Proof.
   intros calls i j ni nj d Hi Hj Ni Nj.
-  pose proof (name_run_in calls reg_empty i ni d reg_empty_ok Hi Ni) as A.
-  pose proof (name_run_in calls reg_empty j nj d reg_empty_ok Hj Nj) as B.
-  destruct (reg_after_ok calls reg_empty reg_empty_ok) as [[_ O2] _]. eapply O2; eassumption.
+  pose proof (name_run_in calls reg_init i ni d reg_init_ok Hi Ni) as A.
+  pose proof (name_run_in calls reg_init j nj d reg_init_ok Hj Nj) as B.
+  destruct (reg_after_ok calls reg_init reg_init_ok) as [[_ [O2 _]] _]. eapply O2; eassumption.
+Qed.
+
+(* every directory name handed out for an RRDP repository is a plain new name: a normal path component
+   (not "", "." or "..") other than "rsync", the directory of the rsync repository *)
+Theorem registry_names_plain : forall calls i n d,
+  nth_error calls i = Some (Some n) -> nth_error (name_run reg_init calls) i = Some (Some d) ->
+  normalb d = true /\ d <> bytes_of "rsync".
+Proof.
+  intros calls i n d Hi Ni.
+  pose proof (name_run_in calls reg_init i n d reg_init_ok Hi Ni) as A.
+  destruct (reg_after_ok calls reg_init reg_init_ok) as [[_ [_ [_ O4]]] _].
+  pose proof (O4 _ _ A) as NR. unfold reserved in NR. cbn [In] in NR. split.
+  - destruct d as [|c t]; [exfalso; apply NR; right; left; reflexivity|]. cbn [normalb].
+    destruct (beqb (c :: t) [DOT]) eqn:E1; [apply beqb_eq in E1; exfalso; apply NR; right; right; left; symmetry; exact E1|].
+    destruct (beqb (c :: t) [DOT; DOT]) eqn:E2; [apply beqb_eq in E2; exfalso; apply NR; right; right; right; left; symmetry; exact E2|].
+    reflexivity.
+  - intros E. apply NR. left. symmetry. exact E.
+Qed.
+
+(* ... and contains no separator when the authority contains none (what the URI parser guarantees) *)
+Lemma dec_digits_no_slash : forall fuel i acc, memb SLASH acc = false -> memb SLASH (dec_digits fuel i acc) = false.
+Proof.
+  induction fuel as [|f IH]; intros i acc Ha; [exact Ha|]. cbn [dec_digits].
+  assert (memb SLASH ((48 + i mod 10) :: acc) = false) as H1.
+  { unfold memb in *. cbn [existsb]. rewrite Ha, orb_false_r. apply N.eqb_neq. unfold SLASH.
+    generalize (i mod 10). intros m. lia. }
+  destruct (i <? 10); [exact H1|apply IH; exact H1].
+Qed.
+
+Lemma first_free_no_slash : forall fuel a i dirs d, memb SLASH a = false ->
+  first_free fuel a i dirs = Some d -> memb SLASH d = false.
+Proof.
+  induction fuel as [|f IH]; intros a i dirs d Ha H; [discriminate|]. cbn [first_free] in H.
+  destruct (dir_mem (a ++ 45 :: dec i) dirs); [eapply IH; eassumption|]. inversion H; subst.
+  rewrite memb_app, Ha. cbn [orb]. change (45 :: dec i) with ([45] ++ dec i). rewrite memb_app.
+  unfold dec. rewrite dec_digits_no_slash by reflexivity. reflexivity.
+Qed.
+
+Definition uris_no_slash (r : registry) : Prop := forall k d, In (k, d) (rrdp_uris r) -> memb SLASH d = false.
+
+Lemma get_repo_name_no_slash : forall r c d r', uris_no_slash r ->
+  match c with Some n => memb SLASH (h_auth n) = false | None => True end ->
+  get_repo_name r c = Some (d, r') -> uris_no_slash r' /\ memb SLASH d = false.
+Proof.
+  intros r c d r' U Hc H. destruct c as [n|]; cbn [get_repo_name] in H.
+  - destruct (reg_lookup (hkey n) (rrdp_uris r)) as [d0|] eqn:E.
+    + inversion H; subst. split; [exact U|]. apply reg_lookup_in in E. exact (U _ _ E).
+    + unfold make_path in H.
+      assert (memb SLASH (lower (h_auth n)) = false) as Ha by (rewrite memb_slash_lower; exact Hc).
+      destruct (if dir_mem (lower (h_auth n)) (rrdp_dirs r) then _ else _) as [x|] eqn:Ex; [|discriminate].
+      inversion H; subst. assert (memb SLASH d = false) as Hd.
+      { destruct (dir_mem (lower (h_auth n)) (rrdp_dirs r)).
+        - eapply first_free_no_slash; eassumption.
+        - inversion Ex; subst. exact Ha. }
+      split; [|exact Hd]. intros k d' [E1|Hin]; [inversion E1; subst; exact Hd | exact (U _ _ Hin)].
+  - inversion H; subst. split; [exact U|reflexivity].
+Qed.
+
+Theorem registry_names_no_slash : forall calls r i d, uris_no_slash r ->
+  Forall (fun c => match c with Some n => memb SLASH (h_auth n) = false | None => True end) calls ->
+  nth_error (name_run r calls) i = Some (Some d) -> memb SLASH d = false.
+Proof.
+  induction calls as [|c calls IH]; intros r i d U F Hn; [destruct i; discriminate|].
+  inversion F as [|? ? Hc F']; subst. cbn [name_run] in Hn.
+  destruct (get_repo_name r c) as [[d0 r']|] eqn:E.
+  - destruct (get_repo_name_no_slash r c d0 r' U Hc E) as [U' Hd].
+    destruct i as [|i]; cbn [nth_error] in Hn; [inversion Hn; subst; exact Hd | exact (IH r' i d U' F' Hn)].
+  - destruct i as [|i]; cbn [nth_error] in Hn; [discriminate | exact (IH r i d U F' Hn)].
 Qed.
 
 (* ---- files of a dump: <base>/<name>/authority/module/path ---- *)
@@ -170,10 +242,13 @@ Definition Hn (s : string) : https_uri :=
 (* authority "..": the directory of the repository is the parent of the dump's base, and the
    object rsync://store/m/a/b/c of that repository and the object rsync://a/b/c of the repository
    with authority "m" are written to the same file although the URIs are not equivalent *)
+Definition reg_unreserved : registry := {| rrdp_uris := []; rrdp_dirs := [] |}.   (* DumpRegistry::new before the fix *)
+
 Theorem dump_refuted_dotdot :
   let base := bytes_of "/dump/store" in
   let calls := [Some (Hn "https://../n.xml"); Some (Hn "https://m/n.xml")] in
-  name_run reg_empty calls = [Some (bytes_of ".."); Some (bytes_of "m")] /\
+  name_run reg_unreserved calls = [Some (bytes_of ".."); Some (bytes_of "m")] /\
+  name_run reg_init calls = [Some (bytes_of "..-1"); Some (bytes_of "m")] /\
   fid (dump_object_path (push base (bytes_of "..")) (U "rsync://store/m/a/b/c"))
     = fid (dump_object_path (push base (bytes_of "m")) (U "rsync://a/b/c")) /\
   rsync_eqvb (U "rsync://store/m/a/b/c") (U "rsync://a/b/c") = false.
@@ -181,5 +256,6 @@ Proof. vm_compute. repeat split; reflexivity. Qed.
 
 (* authority "rsync": the RRDP repository gets the directory of the rsync repository *)
 Theorem dump_refuted_rsync :
-  name_run reg_empty [None; Some (Hn "https://rsync/n.xml")] = [Some (bytes_of "rsync"); Some (bytes_of "rsync")].
-Proof. vm_compute. reflexivity. Qed.
+  name_run reg_unreserved [None; Some (Hn "https://rsync/n.xml")] = [Some (bytes_of "rsync"); Some (bytes_of "rsync")] /\
+  name_run reg_init [None; Some (Hn "https://rsync/n.xml")] = [Some (bytes_of "rsync"); Some (bytes_of "rsync-1")].
+Proof. vm_compute. split; reflexivity. Qed.
